@@ -571,6 +571,11 @@ def barrier(name, timeout=120.0):
     emit('barrier_passed', name=name)
 
 
+class _FalsyThread(threading.Thread):
+    def __len__(self):
+        return 0
+
+
 def thread_action(a, where):
     """C19: a = {"op": "start"|"release", "tag": .., "api": "threading"|"_thread", "name": .., "hold": bool}"""
     op = a['op']
@@ -599,7 +604,9 @@ def thread_action(a, where):
             kw = {}
             if a.get('name') is not None:
                 kw['name'] = a['name']
-            t = threading.Thread(target=body, daemon=True, **kw)
+            # (a Thread subclass may well be false in a boolean context, e.g. a worker with a __len__ of pending jobs)
+            cls = _FalsyThread if a.get('falsy') else threading.Thread
+            t = cls(target=body, daemon=True, **kw)
             t.start()
             started.wait(10)
             rec['thread'] = t
@@ -609,6 +616,11 @@ def thread_action(a, where):
             _wait_gone(rec)
         emit('thread_start', tag=a['tag'], ident=rec['ident'], name=rec.get('name'), where=where,
              hold=bool(a.get('hold')), api=a.get('api', 'threading'))
+    elif op == 'rename':
+        rec = _threads.get(a['tag'])
+        if rec is not None and rec.get('thread') is not None and not rec['done'].is_set():
+            rec['thread'].name = a['name']
+            emit('thread_renamed', tag=a['tag'], name=a['name'], where=where)
     elif op == 'release':
         rec = _threads.get(a['tag'])
         if rec is not None:
